@@ -189,8 +189,9 @@ Top:
 			case 1:
 				b = append(b, '#')
 			default:
+				// The rank is part of the #nA syntax, always decimal.
 				b = append(b, '#')
-				b = p.Append(b, Fixnum(len(to.dims)), 0)
+				b = strconv.AppendInt(b, int64(len(to.dims)), 10)
 				b = append(b, 'A')
 			}
 			goto Top
